@@ -1,0 +1,38 @@
+//go:build verif
+// +build verif
+
+package criteria_omission
+
+// Contracts for gocv (comment-only; compiled out unless the tag "verif" is set, and empty then).
+
+//@ func omitCriteria
+//@   property C15 C07
+//@   requires model.rearranged(*omissionOrderCriteria, current.Criteria)
+//@   requires model.coversAll(*listener, current.MethodParameters, current.Criteria)
+//@   ensures [omitted_are_first] *result1 == (*omissionOrderCriteria)[0:criteria_splitting.pivot(len(*omissionOrderCriteria), *parsedProps)]
+//@   ensures [kept_are_rest] fresh(result0) && result0.Criteria == (*omissionOrderCriteria)[criteria_splitting.pivot(len(*omissionOrderCriteria), *parsedProps):]
+//@   ensures [omitted_elements] result1 != nil && len(*result1) == criteria_splitting.pivot(len(*omissionOrderCriteria), *parsedProps)
+//@             && forall k int :: 0 <= k && k < len(*result1) ==> (*result1)[k] == (*omissionOrderCriteria)[k]
+//@   ensures [kept_elements] len(result0.Criteria) == len(*omissionOrderCriteria) - criteria_splitting.pivot(len(*omissionOrderCriteria), *parsedProps)
+//@             && forall k int :: 0 <= k && k < len(result0.Criteria) ==> result0.Criteria[k] == (*omissionOrderCriteria)[criteria_splitting.pivot(len(*omissionOrderCriteria), *parsedProps) + k]
+//@   ensures [pivot_range] 0 <= criteria_splitting.pivot(len(*omissionOrderCriteria), *parsedProps) && criteria_splitting.pivot(len(*omissionOrderCriteria), *parsedProps) <= len(*omissionOrderCriteria)
+//@   ensures [alternatives_restricted] len(result0.ConsideredAlternatives) == len(current.ConsideredAlternatives) && len(result0.NotConsideredAlternatives) == len(current.NotConsideredAlternatives)
+//@             && (forall i int :: 0 <= i && i < len(current.ConsideredAlternatives) ==> model.restrictedTo(result0.ConsideredAlternatives[i], current.ConsideredAlternatives[i], result0.Criteria))
+//@             && (forall i int :: 0 <= i && i < len(current.NotConsideredAlternatives) ==> model.restrictedTo(result0.NotConsideredAlternatives[i], current.NotConsideredAlternatives[i], result0.Criteria))
+//@   ensures [parameters_restricted] model.coversAll(*listener, result0.MethodParameters, result0.Criteria)
+//@   ensures [fresh_state] fresh(result0.ConsideredAlternatives) && fresh(result0.NotConsideredAlternatives)
+
+//@ func (*CriteriaOmission).Apply
+//@   property C15 C07 C09
+//@   requires model.coherent(*listener, *current)
+//@   ensures [report_type] typeis(result.Props, CriteriaOmissionResult)
+//@   ensures [partition_sizes] len(result.Props.(CriteriaOmissionResult).OmittedCriteria) + len(result.DMP.Criteria) == len(current.Criteria)
+//@   ensures [omitted_are_declared] forall k int :: 0 <= k && k < len(result.Props.(CriteriaOmissionResult).OmittedCriteria) ==>
+//@             exists j int :: 0 <= j && j < len(current.Criteria) && result.Props.(CriteriaOmissionResult).OmittedCriteria[k] == current.Criteria[j]
+//@   ensures [kept_are_declared] forall k int :: 0 <= k && k < len(result.DMP.Criteria) ==> exists j int :: 0 <= j && j < len(current.Criteria) && result.DMP.Criteria[k] == current.Criteria[j]
+//@   ensures [disjoint] forall i int, j int :: 0 <= i && i < len(result.Props.(CriteriaOmissionResult).OmittedCriteria) && 0 <= j && j < len(result.DMP.Criteria) ==>
+//@             result.Props.(CriteriaOmissionResult).OmittedCriteria[i].Id != result.DMP.Criteria[j].Id
+//@   ensures [coherent] model.coherent(*listener, *result.DMP)
+//@   ensures [same_alternatives] len(result.DMP.ConsideredAlternatives) == len(current.ConsideredAlternatives) && len(result.DMP.NotConsideredAlternatives) == len(current.NotConsideredAlternatives)
+//@             && (forall i int :: 0 <= i && i < len(current.ConsideredAlternatives) ==> model.restrictedTo(result.DMP.ConsideredAlternatives[i], current.ConsideredAlternatives[i], result.DMP.Criteria))
+//@             && (forall i int :: 0 <= i && i < len(current.NotConsideredAlternatives) ==> model.restrictedTo(result.DMP.NotConsideredAlternatives[i], current.NotConsideredAlternatives[i], result.DMP.Criteria))
